@@ -199,3 +199,20 @@ PROPS["C09"] = {
     "level_text": "Machine-checked Lean 4 theorems: cohort_merge / cohort_empty_overwrites (present-even-empty overwrites, absent keeps, per field), updateFromOmaha_spec / updateFromOmaha_unnamed / updateFromOmaha_keeps (every app named in the response — any order, any count — takes the merge with the first entry bearing its id and the response's day number; apps not named, and all other fields, unchanged), makeAppResponses_data / installResponses_data (what the check hands to the merge is the response's own cohort and day number on every path), finishCheckOk_apps / finishCheckErr_apps / check_keeps_apps_until_end / pingSucceeded_apps / pingFailed_apps (only successful checks and pings change apps), checkBuilder_wire / pingBuilder_wire (the next request sends exactly the app's cohort fields and ad = rd = its day number), persistData_ops / persistApps_ops / finishCheckOk_persists_merged / pingSucceeded_persists_merged / persistedAppJson_shape (one write per app under its id carrying the merged values, then a commit, in the same batch as the check's context), loadApp_spec / loadApp_absent / loadApp_undecodable (restore fills exactly the unset fields). Tied to the code by the per-unit differential run incl. restarts on library-written storage.",
     "level_note": "Trusted: Lean kernel; the hand-written state-machine model; harness and diff. Histories: every unit starts from the app set and storage the real machine reached; the per-step theorems hold for every start state.",
 }
+
+
+def _hx(k):
+    return "x" + k.encode().hex()
+
+K_C18 = "|".join(_hx(k) for k in ["install_plan_id", "update_first_seen_time", "update_finish_time", "target_version", "consecutive_failed_install_attempts"])
+
+PROPS["C18"] = {
+    "lean_modules": ["Omaha.Props.C18"],
+    "streams": sm_stream([r"S (set|remove) (%s)" % K_C18, r"S commit", r"M (firstseen|attemptsinstall|waitedreboot|updok|updfail)", r"P rebootneeded", r"I (install|reboot)",
+                          [r"I plan", ["->"]], [r"Z ", ["comm="]]]),
+    "rule": SM_RULE + "; plan ids repeat across units and restarts (and match or differ from a pre-stored id), per-app result vectors mix installed / deferred / failed in any order, the system app is inside or outside the set and its manifest version present or absent, pre-stored finish time / target version are consistent or not with the OS version and the clocks (finish before, at, or after the restart time; monotonic clock at 0 or later), restarts happen on library-written storage; projection: storage operations on the five bookkeeping keys and commits, the first-seen / install-attempt / waited-for-reboot / update-duration metrics, the reboot-needed question, install and reboot calls, plan ids, end-of-unit committed storage",
+    "trusted_extra": SM_TRUSTED + ["Storage contract assumed: writes cached until commit, commit atomic (the harness storage implements exactly that)"],
+    "assumptions": ["first_seen_stable is stated for a storage that works at the moment the new plan is recorded; failing writes there are the C14 clause (both-or-neither is modelled and run)"],
+    "level_text": "Machine-checked Lean 4 theorems: recordFirstSeen_same (same plan: nothing written, stored first-seen time used — for any world, hence after any number of attempts and restarts), recordFirstSeen_new (a different plan records id and time and commits at once; afterwards the store reads back exactly that id and the microsecond-truncated time with nothing pending, so a crash cannot lose it), crash_keeps_committed, firstSeenMetric_value; installSuccess_spec (the counter is touched iff some app failed, else iff some app installed — over all result vectors), reportAttemptsInstall_spec / _first (reported count = stored + 1, stored on failure, removed on success); recordFinish_order + setTargetVersion_spec (finish time, the system app's manifest version or UNKNOWN, and a commit all precede the reboot-needed question, and with C05's gates any reboot); runStart_shouldReport (pending iff finish time readable and target version = running OS version), reportWaited_spec (value and the three clock-consistency guards), waited_independent_of_delay (equals start-wall − finish whenever both clocks advanced equally since start), waitedStep_spec (on success: metric, both keys removed, commit, flag cleared so never again; otherwise nothing reported, nothing removed, retried next iteration). Tied to state_machine.rs by the per-unit differential run incl. restarts.",
+    "level_note": "Trusted: Lean kernel; the hand-written state-machine and storage model; harness and diff.",
+}
